@@ -81,7 +81,7 @@ def run_case(spec):
 def main():
     from . import c36
     job = json.loads(sys.argv[1])
-    c36.setup(job["paths"])
+    c36.setup(job["paths"], light=True)
     me = os.getpid()
     tmp = tempfile.mkdtemp(prefix="c36end-", dir=os.environ.get("VERIF_SHARED_SCRATCH") or None)
     try:
